@@ -23,6 +23,9 @@ FLOORS = {'second-calc': ('frac', 0.3)}
 
 
 def check_case(case):
+    if case['k'] == 'sparse':
+        from . import c08
+        return c08.check_sparse(case)
     spec = case['spec']
     with G.workdir() as d:
         r = H.Runner(spec, case['path'], d)
@@ -71,10 +74,18 @@ def _array_range_histories():
                 yield {'k': 'history', 'spec': spec, 'path': path, 'ops': ops}
 
 
+def _sparse():
+    """The calculate-only sequences of C08's sparse-range shapes: rectangles most of whose cells are unpopulated, supplied
+    whole, in part and through a name, with plain recalculations in between (no trace may remain)."""
+    from . import c08
+    return [c for c in c08.sparse_cases() if not any(op[0] in ('compile', 'call') for op in c['ops'])]
+
+
 STRATEGIES = {'histories': _histories}
 
 
 def parts(tier, seed):
     q = tier == 'quick'
     return [('hyp', 'histories', 2000 if q else 16000, 10),
-            ('enum', 'array-range-histories', list(_array_range_histories()), 2, False)]
+            ('enum', 'array-range-histories', list(_array_range_histories()), 2, False),
+            ('enum', 'sparse-range-histories', _sparse(), 3, False)]
